@@ -22,7 +22,7 @@ L = lambda s: [ord(c) for c in s]               # noqa: E731
 
 ERR = {'UnicodeEncodeError': 'EUnicodeEncode', 'UnicodeDecodeError': 'EUnicodeDecode',
        'IndexError': 'EIndex', 'AssertionError': 'ENoneType', 'TypeError': 'ENoneType',
-       'AttributeError': 'ENoneType'}
+       'AttributeError': 'ENoneType', 'ValueError': 'EValue'}
 
 
 class Recorder:
@@ -31,11 +31,15 @@ class Recorder:
         self.sha = {}
         self.low = {}
         self.upp = {}
+        self.netloc = {}      # _checknetloc argument -> did not raise
+        self.bracket = {}     # _check_bracketed_host argument -> did not raise
 
     def dump(self):
         return {'sha': [[list(k), L(v)] for k, v in self.sha.items()],
                 'low': [[L(k), L(v)] for k, v in self.low.items()],
-                'upp': [[L(k), L(v)] for k, v in self.upp.items()]}
+                'upp': [[L(k), L(v)] for k, v in self.upp.items()],
+                'netloc': [[L(k), v] for k, v in self.netloc.items()],
+                'bracket': [[L(k), v] for k, v in self.bracket.items()]}
 
 
 REC = Recorder()
@@ -75,6 +79,45 @@ def _safe_filename(filename, *a, **kw):
 P.hashlib = _HashProxy()
 P.safe_filename = _safe_filename
 
+# the two library checks of urlsplit that can only raise are oracles of the model:
+# record what the real ones answer (they still decide)
+_orig_checknetloc = urllib.parse._checknetloc
+_orig_check_bracketed = urllib.parse._check_bracketed_host
+
+
+def _rec_checknetloc(netloc):
+    try:
+        _orig_checknetloc(netloc)
+    except ValueError:
+        REC.netloc[netloc] = False
+        raise
+    REC.netloc[netloc] = True
+
+
+def _rec_check_bracketed(host):
+    try:
+        _orig_check_bracketed(host)
+    except ValueError:
+        REC.bracket[host] = False
+        raise
+    REC.bracket[host] = True
+
+
+urllib.parse._checknetloc = _rec_checknetloc
+urllib.parse._check_bracketed_host = _rec_check_bracketed
+
+
+def real_split(url):
+    """the real urlsplit, every time (no lru cache), with the lower-casing of the
+    host recorded for the model's str.lower oracle"""
+    urllib.parse.urlsplit.cache_clear()
+    sp = urllib.parse.urlsplit(url)
+    h = sp._hostinfo[0]
+    if h:
+        a = h.partition('%')[0]
+        REC.low[a] = a.lower()
+    return sp
+
 
 def namer(cfg, root):
     return P.PathNamer(root, index=S(cfg['index']), use_dir=cfg['use_dir'], cut=cfg['cut'],
@@ -86,7 +129,7 @@ def namer(cfg, root):
 def split_parts(url, scheme):
     """what path.py reads from urlsplit(url); None if urllib raises"""
     try:
-        sp = urllib.parse.urlsplit(url)
+        sp = real_split(url)
         host = sp.hostname
         port = sp.port
     except ValueError:
@@ -119,15 +162,285 @@ def run_url(case):
             return {'skip': 'scheme-not-handled'}
     else:
         ui = types.SimpleNamespace(url=url, scheme=S(case['scheme']))
-    parts = split_parts(ui.url, ui.scheme)
-    if parts is None:
-        return {'skip': 'urlsplit-raises'}
+    parts = split_parts(ui.url, ui.scheme)          # None when urlsplit / .port raises
     pn = namer(cfg, root)
     res = outcome(lambda: pn.get_filename(ui))
     res['parts'] = parts
     res['norm_url'] = L(ui.url)
+    res['is_ftp'] = ui.scheme == 'ftp'
     res['oracles'] = REC.dump()
     return res
+
+
+def run_split(case):
+    """urlsplit + the attributes path.py reads, on an arbitrary string"""
+    global REC
+    REC = Recorder()
+    url = S(case['url'])
+    try:
+        sp = real_split(url)
+        if case['need_port']:
+            port = sp.port
+        else:
+            port = None
+        res = {'parts': {'scheme': L(sp.scheme), 'hostname': None if sp.hostname is None else L(sp.hostname), 'port': port,
+                         'path': L(sp.path), 'query': L(sp.query), 'ends_slash': url.endswith('/'), 'is_ftp': case['is_ftp']}}
+    except ValueError:
+        res = {'err': 'EValue'}
+    res['oracles'] = REC.dump()
+    return res
+
+
+# ---------------------------------------------------------------------------
+# writer sessions
+# ---------------------------------------------------------------------------
+class FsProbe:
+    """records the answers of os.path.isfile / isdir / exists while the session decides
+    the name (first answer per path; all three facts are read at that moment)"""
+    def __init__(self):
+        self.on = False
+        self.seen = {}
+        self.orig = (os.path.isfile, os.path.isdir, os.path.exists)
+
+    def _note(self, p):
+        if self.on and isinstance(p, str) and p not in self.seen:
+            try:
+                self.seen[p] = [self.orig[0](p), self.orig[1](p), self.orig[2](p)]
+            except ValueError:          # embedded NUL
+                self.seen[p] = [False, False, False]
+
+    def install(self):
+        def wrap(i):
+            def f(p):
+                self._note(p)
+                try:
+                    return self.orig[i](p)
+                except ValueError:
+                    return False
+            return f
+        os.path.isfile, os.path.isdir, os.path.exists = wrap(0), wrap(1), wrap(2)
+
+    def remove(self):
+        os.path.isfile, os.path.isdir, os.path.exists = self.orig
+
+
+def _touch(path, as_dir=False):
+    try:
+        if as_dir:
+            os.makedirs(path, exist_ok=True)
+        else:
+            d = os.path.dirname(path)
+            if d:
+                os.makedirs(d, exist_ok=True)
+            if not os.path.lexists(path):
+                with open(path, 'w') as f:
+                    f.write('x')
+        return True
+    except (OSError, ValueError):
+        return False
+
+
+def _build_tree(variant, root, p0, p2):
+    """a scratch tree related to the name PathNamer chooses (p0; p2 for the last hop)"""
+    made = []
+    if p0 is None or variant == 'empty':
+        return made
+    below = None
+    nroot = os.path.normpath(root) if root else '.'
+    np0 = os.path.normpath(p0) if '\x00' not in p0 else None
+    if np0 is not None:
+        rel = os.path.relpath(np0, nroot)
+        comps = [] if rel.startswith('..') else rel.split('/')
+        if len(comps) >= 2:
+            below = [os.path.join(nroot, *comps[:k]) for k in range(1, len(comps))]
+    if variant == 'file':
+        made.append(_touch(p0))
+    elif variant == 'file12':
+        made += [_touch(p0), _touch(p0 + '.1'), _touch(p0 + '.2')]
+    elif variant == 'dir':
+        made.append(_touch(p0, True))
+    elif variant == 'dirf':
+        made += [_touch(p0, True), _touch(p0 + '.f')]
+    elif variant == 'prefixfile' and below:
+        made.append(_touch(below[0]))
+    elif variant == 'prefixfile2' and below:
+        made.append(_touch(below[-1]))
+    elif variant == 'prefixfile_d' and below:
+        made += [_touch(below[0]), _touch(below[0] + '.d', True)]
+    elif variant == 'file2' and p2:
+        made += [_touch(p2), _touch(p0)]
+    elif variant == 'rootdir':
+        made.append(_touch(root or '.', True))
+    return made
+
+
+def _url_info(url_cps, mode, scheme_cps):
+    url = S(url_cps)
+    if mode == 'parse':
+        ui = URLInfo.parse(url)
+        if ui is None or ui.scheme not in ('http', 'https', 'ftp'):
+            raise LookupError('scheme-not-handled')
+        return ui
+    return types.SimpleNamespace(url=url, scheme=S(scheme_cps))
+
+
+def run_sess(case):
+    import shutil
+    import tempfile
+    import builtins
+    import wpull.processor.ftp as PF
+    from wpull.protocol.http.request import Response as HResponse
+    from wpull.protocol.ftp.request import Response as FResponse
+    global REC
+    REC = Recorder()
+    cfg = case['cfg']
+    try:
+        ui1 = _url_info(case['url'], case['mode'], case.get('scheme'))
+        ui2 = _url_info(case['url2'], case['mode'], case.get('scheme2')) if case.get('url2') is not None else ui1
+    except LookupError as e:
+        return {'skip': str(e)}
+    except Exception as e:
+        return {'skip': 'parse-error:' + type(e).__name__}
+    parts1 = split_parts(ui1.url, ui1.scheme)
+    parts2 = split_parts(ui2.url, ui2.scheme)
+    if parts1 is None or parts2 is None:
+        return {'skip': 'urlsplit-raises'}
+    tmp = tempfile.mkdtemp(prefix='verif-c15-')
+    cwd = os.getcwd()
+    probe = FsProbe()
+    real_open = builtins.open
+    real_makedirs = os.makedirs
+    real_symlink = os.symlink
+    opened = []
+    mkd = []
+    syml = []
+    det = {}
+    try:
+        os.chdir(tmp)
+        root = S(case['root']).replace('@ABS@', tmp)
+        pn = namer(cfg, root)
+        try:
+            p0 = pn.get_filename(ui1)
+        except Exception:
+            p0 = None
+        try:
+            p2 = pn.get_filename(ui2)
+        except Exception:
+            p2 = None
+        _build_tree(case['variant'], root, p0, p2)
+
+        def rec_open(name, mode='r', *a, **kw):
+            probe.on = False
+            opened.append([L(name), mode])
+            try:
+                return real_open(name, mode, *a, **kw)
+            except (OSError, ValueError):
+                return tempfile.TemporaryFile()
+
+        def rec_makedirs(name, *a, **kw):
+            probe.on = False
+            mkd.append(L(name))
+            try:
+                return real_makedirs(name, *a, **kw)
+            except (OSError, ValueError):
+                return None
+
+        def rec_symlink(target, name, *a, **kw):
+            syml.append(L(name))
+
+        html_orig = W.HTMLReader.is_response
+        css_orig = W.CSSReader.is_response
+        W.HTMLReader.is_response = classmethod(lambda cls, r: det.setdefault('html', bool(html_orig(r))))
+        W.CSSReader.is_response = classmethod(lambda cls, r: det.setdefault('css', bool(css_orig(r))))
+        cls = {'overwrite': W.OverwriteFileWriter, 'ignore': W.IgnoreFileWriter, 'timestamping': W.TimestampingFileWriter,
+               'anticlobber': W.AntiClobberFileWriter}[case['writer']]
+        fl = case['flags']
+        writer = cls(pn, file_continuing=fl['cont'], headers_included=False, local_timestamping=False,
+                     adjust_extension=fl['adjust'], content_disposition=fl['cd'], trust_server_names=fl['trust'])
+        session = writer.session()
+        request = types.SimpleNamespace(url_info=ui1, fields={}, restart_value=None)
+        request.set_continue = lambda n: setattr(request, 'restart_value', n)
+        if ui2.scheme == 'ftp':
+            response = FResponse()
+            response.restart_value = case.get('restart')
+        else:
+            response = HResponse(case['code'], 'X')
+            if case['header'] is not None:
+                response.fields['Content-Disposition'] = S(case['header'])
+            if case.get('ctype'):
+                response.fields['Content-Type'] = case['ctype']
+        response.request = types.SimpleNamespace(url_info=ui2, restart_value=None)
+        W.open = rec_open
+        os.makedirs = rec_makedirs
+        os.symlink = rec_symlink
+        probe.install()
+        probe.on = True
+        out = {}
+        try:
+            try:
+                session.process_request(request)
+                response.request.restart_value = request.restart_value
+                out['cont'] = bool(session._file_continue_requested)
+                out['name0'] = None if session._filename is None else L(session._filename)
+                session.process_response(response)
+                if opened:
+                    out['ok'] = ['WAppend' if opened[-1][1] == 'ab+' else 'WOpen', opened[-1][0]]
+                else:
+                    out['ok'] = ['WNoFile']
+            except OSError as e:
+                if 'continue' in str(e):
+                    out['ok'] = ['WCannotContinue']
+                else:
+                    raise
+        except Exception as e:
+            name = type(e).__name__
+            out = {'err': ERR.get(name, 'Other:' + name)}
+        probe.on = False
+        try:
+            if getattr(response, 'body', None):
+                response.body.close()
+        except Exception:
+            pass
+        out['final'] = None if session._filename is None else L(session._filename)
+        out['opened'] = opened
+        out['makedirs'] = mkd
+        out['restart'] = bool(response.request.restart_value and getattr(response, 'restart_value', None))
+        out['html'] = det.get('html', False)
+        out['css'] = det.get('css', False)
+        out['probes'] = [[L(k), v] for k, v in probe.seen.items()]
+        out['root'] = L(root)
+        out['parts1'] = parts1
+        out['scheme2'] = ui2.scheme
+        out['parts2'] = parts2
+        # derived paths
+        ex = session.extra_resource_path(S(case['suffix']))
+        out['extra'] = None if ex is None else L(ex)
+        fake = types.SimpleNamespace(
+            _file_writer_session=session,
+            _item_session=types.SimpleNamespace(app_session=types.SimpleNamespace(factory={'PathNamer': pn})))
+        try:
+            PF.FTPProcessorSession._make_symlink(fake, S(case['link']), 'target')
+            out['symlink'] = {'ok': syml[-1] if syml else None}
+        except Exception as e:
+            name = type(e).__name__
+            out['symlink'] = {'err': ERR.get(name, 'Other:' + name)}
+        out['oracles'] = REC.dump()
+        return out
+    finally:
+        probe.remove()
+        os.makedirs = real_makedirs
+        os.symlink = real_symlink
+        try:
+            del W.open
+        except AttributeError:
+            pass
+        try:
+            W.HTMLReader.is_response = html_orig
+            W.CSSReader.is_response = css_orig
+        except NameError:
+            pass
+        os.chdir(cwd)
+        shutil.rmtree(tmp, ignore_errors=True)
 
 
 class _FakeFields(dict):
@@ -294,6 +607,10 @@ def main():
             res.append(run_lib(case))
         elif k == 'fs':
             res.append(run_fs(case))
+        elif k == 'split':
+            res.append(run_split(case))
+        elif k == 'sess':
+            res.append(run_sess(case))
         else:
             raise ValueError(k)
     out['results'] = res
